@@ -221,7 +221,14 @@ static void run_case(int k, const std::string & head, const std::string & body)
                }
                msgs.push_back(m);
             }
-            else if (v == "rm") msgs.push_back(MkRemoveData(a[1]));
+            else if (v == "rm")
+            {
+               // several PR_NAME_KEYS of equal depth: one traversal collects the victims, which are then removed last found first
+               std::vector<std::string> keys = Split(a[1], ',');
+               MessageRef m = MkRemoveData(keys[0]);
+               for (size_t i=1; i<keys.size(); i++) (void) m()->AddString(PR_NAME_KEYS, keys[i].c_str());
+               msgs.push_back(m);
+            }
             else if (v == "rq")
             {
                // quiet removal: whom it leaves stale is decided before it happens
